@@ -18,7 +18,8 @@ HELPERS = [
     "bz = (n) -> if n <= 0 1/0 else 1 + bz(n - 1)",
     "bn = (n) -> if n <= 0 nosuchvar + 1 else 1 + bn(n - 1)",
     "bt = (n) -> if n <= 0 1 + \"a\" else 1 + bt(n - 1)",
-    "bi = (n) -> if n <= 0 [1][5] else 1 + bi(n - 1)",
+    "one = [1]",
+    "bi = (n) -> if n <= 0 one[5] else 1 + bi(n - 1)",
     "two = (a, b) -> a + b",
     "ba = (n) -> if n <= 0 two(1) else 1 + ba(n - 1)",
     "bc = (n) -> if n <= 0 aton(\"zz\") else 1 + bc(n - 1)",
@@ -214,7 +215,11 @@ def run(tier, seed):
                                    "with_failures": ra[i], "twin": rb[j]})
                 break
     # the same through the real read-eval loop (REPL style: lines in, "> value" out)
-    lviol, lcompared = loop_twins(run, cases[:40 if tier == "quick" else 1500])
+    # in the line-oriented loop an unclosed block, bracket or string literal is not a failing statement but an
+    # unfinished one (it swallows the following lines), so histories containing one are left to the per-statement runs
+    open_ended = {"{\n1\n", "\"abc", "a[1"}
+    line_cases = [c for c in cases if not (open_ended & set(c[0]))]
+    lviol, lcompared = loop_twins(run, line_cases[:40 if tier == "quick" else 1500])
     nviol += lviol
     compared += lcompared
 
